@@ -110,7 +110,7 @@ def gen_spec(rng, thorough):
     assocs = gen_schema(rng)
     nns = rng.choice([1, 2, 2, 3])
     nss = NSS[:nns]
-    nnodes = rng.choice([1, 2, 3, 5, 8, 12] + ([20, 30] if thorough else [16]))
+    nnodes = rng.choice([1, 3, 5, 8, 8, 12, 12] + ([20, 30] if thorough else [16]))
     nodes = []
     for i in range(nnodes):
         cls = rng.choice([n for n, _ in NODE_CLASSES])
@@ -120,7 +120,7 @@ def gen_spec(rng, thorough):
             nodes.append([ns, cls, nid])
     anomaly = rng.choice(ANOMALIES)
     links = []
-    nlinks = rng.choice([0, 1, 2, 4, 8, 12, 20] + ([40] if thorough else []))
+    nlinks = rng.choice([0, 2, 4, 8, 12, 20, 30] + ([40, 60] if thorough else []))
     for _ in range(nlinks):
         a = rng.choice(assocs)
         refs = assoc_refs(assocs, a[0])
@@ -649,6 +649,11 @@ class Oracle:
                 q.namespace = ns2
                 if not s2.object_exists(q):
                     return False
+                b = s2.get(q, copy=False)        # same key is not enough: the copy must have the same ends
+                ra = sorted((p.name.lower(), str(p.value).lower()) for p in a.properties.values() if p.type == 'reference')
+                rb = sorted((p.name.lower(), str(p.value).lower()) for p in b.properties.values() if p.type == 'reference')
+                if ra != rb:
+                    return False
         return True
 
 
@@ -963,20 +968,128 @@ def run(run):
     create_k(run)
 
 
+def gen_create_spec(rng):
+    """a repository of nodes + a sequence of CreateInstance calls of association instances whose ends all
+    carry a namespace in its stored spelling (NULL / namespace-less ends: C10)"""
+    assocs = gen_schema(rng)
+    nss = NSS[:rng.choice([1, 2, 3, 3])]
+    nodes = []
+    for i in range(rng.choice([2, 4, 6, 9])):
+        nd = [rng.choice(nss), rng.choice([n for n, _ in NODE_CLASSES]), 'n%d' % rng.randrange(5)]
+        if nd not in nodes:
+            nodes.append(nd)
+    drop = []          # (class, namespace): association classes removed from one namespace before the creates
+    leafs = [a[0] for a in assocs if not any(b[1] and b[1].lower() == a[0].lower() for b in assocs)]
+    if len(nss) > 1 and leafs and rng.random() < 0.4:
+        drop.append([rng.choice(leafs), rng.choice(nss[1:])])
+    creates = []
+    for _ in range(rng.choice([1, 3, 6, 10])):
+        a = rng.choice(assocs)
+        refs = assoc_refs(assocs, a[0])
+        ends = {}
+        for role, rc, iskey in refs:
+            r = rng.random()
+            if r < 0.78 and nodes:
+                ends[role] = ['node', rng.randrange(len(nodes))]
+            elif r < 0.86:
+                ends[role] = ['missing', rng.choice(nss)]               # end that does not exist
+            elif r < 0.92:
+                ends[role] = ['badns', None]                             # end in an unknown namespace
+            elif r < 0.96 and nodes:
+                ends[role] = ['host', rng.randrange(len(nodes))]
+            elif nodes:
+                ends[role] = ['node', rng.randrange(len(nodes))]
+            else:
+                ends[role] = ['missing', rng.choice(nss)]
+        ns = rng.choice(nss + ['root/nonexistent'] if rng.random() < 0.08 else nss)
+        creates.append({'cls': a[0] if rng.random() < 0.8 else recase(a[0], rng), 'ns': ns, 'ends': ends})
+        if rng.random() < 0.25:
+            creates.append(dict(creates[-1]))                           # duplicate: ALREADY_EXISTS
+    return {'assocs': assocs, 'nss': nss, 'nodes': nodes, 'drop': drop, 'creates': creates}
+
+
+def run_create(spec):
+    """-> (model line, real outcomes, real final paths per namespace, violations)"""
+    import pywbem
+    import mockutil
+    conn = mockutil.new_conn(schema_mof(spec['assocs']), spec['nss'])
+    for nd in spec['nodes']:
+        conn.CreateInstance(pywbem.CIMInstance(nd[1], properties={'id': nd[2]}), namespace=nd[0])
+    for cn, ns in spec['drop']:
+        conn.DeleteClass(cn, namespace=ns)
+    keys = Keys()
+    line = {'host': conn.host, 'repo': dump_repo(conn, keys), 'reqs': []}
+    outs, viol = [], []
+    for cr in spec['creates']:
+        refs = assoc_refs(spec['assocs'], cr['cls'])
+        props, keyb = [], {}
+        for role, rc, iskey in refs:
+            kind, arg = cr['ends'][role]
+            if kind in ('node', 'host'):
+                val = node_path(spec['nodes'][arg])
+                if kind == 'host':
+                    val.host = 'some.host'
+            elif kind == 'missing':
+                val = pywbem.CIMInstanceName('C13_Node', keybindings={'id': 'missing'}, namespace=arg)
+            else:
+                val = pywbem.CIMInstanceName('C13_Node', keybindings={'id': 'n0'}, namespace='root/zz')
+            props.append(pywbem.CIMProperty(role, val, type='reference', reference_class=rc))
+            if iskey:
+                keyb[role] = val
+        inst = pywbem.CIMInstance(cr['cls'], properties=props)
+        mpath = pywbem.CIMInstanceName(cr['cls'], keybindings=keyb)
+        line['reqs'].append({'op': 'create', 'ns': cr['ns'],
+                             'inst': {'cls': cr['cls'], 'path': pj(mpath, keys),
+                                      'props': [{'name': p.name, 'ref': True, 'v': pj(p.value, keys)} for p in props]}})
+        before = store_paths(conn, keys)
+        try:
+            rp = conn.CreateInstance(inst, namespace=cr['ns'])
+            outs.append({'ok': None})
+            # oracle (storing side of the property): the new instance is stored in the target namespace
+            # and in the namespace of every end, and nowhere else
+            after = store_paths(conn, keys)
+            want = set([cr['ns'].lower()] + [p.value.namespace.lower() for p in props])
+            kid = keys.kid(rp)
+            for ns in after:
+                new = after[ns] - before[ns]
+                exp = {(cr['cls'].lower(), ns, None, kid)} if ns in want else set()
+                if set((c, n, h, k) for c, n, h, k in new) != exp:
+                    viol.append(({'kind': 'shadow_instances_wrong', 'op': 'create', 'level': 'instance'},
+                                 {'create_spec': spec}, {'namespace': ns, 'new': sorted(map(str, new)),
+                                                         'expected': sorted(map(str, exp))}))
+        except Exception as e:  # noqa
+            outs.append(common.exc_json(e))
+            if store_paths(conn, keys) != before:
+                viol.append(({'kind': 'failed_create_changed_store', 'op': 'create', 'level': 'instance'},
+                             {'create_spec': spec}, common.exc_json(e)))
+    final = {ns: sorted(map(str, ps)) for ns, ps in store_paths(conn, keys).items()}
+    return line, outs, final, viol
+
+
+def store_paths(conn, keys):
+    return {ns.lower(): set(canon_p(pj(i.path, keys)) for i in
+                           conn.cimrepository.get_instance_store(ns).iter_values(copy=False))
+            for ns in conn.namespaces}
+
+
 def create_k(run):
     """K for the storing side: CreateInstance of association instances (multi-namespace shadows)"""
-    # filled in by create_cases() below
-    for spec, line, real_outs, real_paths in create_cases(run):
-        ans = common.run_driver(PROP, [line])[0]
+    n = 400 if run.thorough else 120
+    specs = [gen_create_spec(run.rng) for _ in range(n)]
+    rows = [run_create(s) for s in specs]
+    answers = common.run_driver(PROP, [r[0] for r in rows])
+    for spec, (line, outs, final, viol), ans in zip(specs, rows, answers):
         mo = ans.get('outs')
         mp = {r['name'].lower(): sorted(map(str, (canon_p(p) for p in r['paths']))) for r in ans.get('repo', [])}
-        if mo != real_outs or mp != real_paths:
-            run.disagree({'create_spec': spec}, {'outs': mo, 'repo': mp}, {'outs': real_outs, 'repo': real_paths},
+        run.case({'create': spec['creates'], 'nodes': spec['nodes'], 'drop': spec['drop']},
+                 nontrivial=any('ok' in o for o in outs))
+        for o in outs:
+            run.count('create:' + o.get('exc', 'ok') + str(o.get('code', '')))
+        if mo != outs or mp != final:
+            run.disagree({'create_spec': spec}, {'outs': mo, 'repo': mp}, {'outs': outs, 'repo': final},
                          'CreateInstance of association instances')
-
-
-def create_cases(run):
-    return []
+        for sig, case, obs in viol:
+            run.violate(sig, case, obs)
 
 
 def search(run):
@@ -998,10 +1111,22 @@ def search(run):
 
 def replay(payload):
     case = payload['case']
+    if 'create_spec' in case:
+        line, outs, final, viol = run_create(case['create_spec'])
+        if viol:
+            return False, 'property C13 FAILS (storing side): ' + json.dumps([v[0] for v in viol][:3]) + \
+                '\nreal outcomes: ' + json.dumps(outs)[:1000]
+        return True, 'property C13 holds on this CreateInstance sequence; real outcomes: ' + json.dumps(outs)[:1000]
     r = run_repo(case['spec'], only_req=dict(case['req']))
+    known = common.load_known_all()
     sigs = [sig for sig, _, _ in r['viol']]
+    unmatched = [g for g in sigs if not any(common.matches(f, PROP, g) for f in known)]
+    recorded = payload.get('sig')
+    failing = [g for g in sigs if g == recorded] or unmatched
+    tail = '\nreal outcomes: ' + json.dumps(r['real'][:4], default=str)[:1500]
+    if failing:
+        return False, 'property C13 FAILS on this repository/request: ' + json.dumps(failing[:3]) + tail
     if sigs:
-        return False, 'property C13 FAILS on this repository/request: ' + json.dumps(sigs[:3]) + \
-            '\nreal outcomes: ' + json.dumps(r['real'][:4], default=str)[:1500]
-    return True, 'property C13 holds on this repository/request; real outcomes: ' + \
-        json.dumps(r['real'][:4], default=str)[:1500]
+        return True, 'property C13: only open known findings reproduce on this repository/request: ' + \
+            json.dumps(sigs[:3]) + tail
+    return True, 'property C13 holds on this repository/request' + tail
